@@ -17,14 +17,14 @@ Stmts(inds, shapes, dirs) == {St(i, s, y, d) : i \in inds, s \in shapes, y \in {
                              {b \in [t : {"stmt"}, ind : inds, n : {0}, shape : shapes, style : {"a", "c", "t"}, dir : dirs] : b.style \notin StyleOf(b.shape)}
 
 \* ---- C13: labelling and partition: every shape and prompt style, two indentation levels, text, blank, bare, "... text"
-C13_Blocks == Stmts({0, 1}, Single \cup Multi \cup {"tri3", "pair2"}, {"none"})
+C13_Blocks == Stmts({0, 1}, Single \cup Multi \cup {"tri3", "pair2", "mlb3"}, {"none"})
               \cup {Txt(i, n) : i \in {0, 1}, n \in {1, 2}} \cup {Blank} \cup {Bare(i) : i \in {0, 1}} \cup {P2Txt(0)}
 \* a smaller alphabet for longer docstrings
 C13_Core == Stmts({0, 1}, {"one", "expr", "ml2", "cmp2", "tri3"}, {"none"})
             \cup {Txt(0, 1), Txt(1, 1), Txt(1, 2), Blank, Bare(0)}
 
 \* ---- C01: programs (one indentation level; directives in every position)
-C01_Blocks == Stmts({0}, Single \cup Multi \cup {"tri3", "pair2"}, {"none"})
+C01_Blocks == Stmts({0}, Single \cup Multi \cup {"tri3", "pair2", "mlb3"}, {"none"})
               \cup Stmts({0}, {"one", "expr", "ml2", "cmp2", "deco3"}, {"first", "last"})
               \cup {St(0, "cmt", "a", "first"), St(0, "cmt", "a", "neg")}
               \cup {Txt(0, 1), Txt(0, 2), Blank}
